@@ -345,6 +345,16 @@ type HCase struct {
 	Cfg    refmodel.Cfg `json:"cfg"`
 	N      int          `json:"n"`      // scte35_N
 	Minute int64        `json:"minute"` // first wall-clock minute (since AST) covered
+	AnnexI bool         `json:"annexI,omitempty"`
+}
+
+// mkURL is ls.URL plus, for Annex I cases, the query parameters the annexI_ option announces (the server checks them)
+func mkURL(annexI bool, parts []string, asset, file string, now int64) string {
+	u := ls.URL(parts, asset, file, now)
+	if annexI {
+		u += "&a=1&b=2"
+	}
+	return u
 }
 
 func genH(t *rapid.T) (HCase, *env.Env) {
@@ -360,7 +370,7 @@ func genH(t *rapid.T) (HCase, *env.Env) {
 	if tg.Layout != nil && tg.Layout.AvgSegMS() < 1000 {
 		cfg.Extra = []string{"mup_1"}
 	}
-	c := HCase{Target: tg, Cfg: cfg, N: rapid.SampledFrom([]int{1, 2, 3, 1, 2, 3, 0, 4, 7}).Draw(t, "N")}
+	c := HCase{Target: tg, Cfg: cfg, N: rapid.SampledFrom([]int{1, 2, 3, 1, 2, 3, 0, 4, 7}).Draw(t, "N"), AnnexI: rapid.IntRange(0, 3).Draw(t, "annexI") == 0}
 	c.Minute = rapid.SampledFrom([]int64{0, 1, 7, 1589, 1590, 100000}).Draw(t, "minute")
 	return c, e
 }
@@ -374,6 +384,9 @@ type hinfo struct {
 func checkH(c HCase, e *env.Env) (*hx.Violation, hinfo) {
 	var inf hinfo
 	parts := append(c.Cfg.Parts(), "scte35_"+strconv.Itoa(c.N))
+	if c.AnnexI {
+		parts = append(parts, "annexI_a=1,b=2") // another feature that decorates the video adaptation set
+	}
 	vrep := e.Asset.Ref
 	if vrep.ContentType != "video" {
 		return hx.V("harness", "no video"), inf
@@ -393,13 +406,13 @@ func checkH(c HCase, e *env.Env) (*hx.Violation, hinfo) {
 		mpdName = names[0]
 	}
 	now0 := c.Cfg.StartS*1000 + (c.Minute+1)*60_000
-	mr := e.Srv.Get(ls.URL(parts, e.Asset.Path, mpdName, now0))
+	mr := e.Srv.Get(mkURL(c.AnnexI, parts, e.Asset.Path, mpdName, now0))
 	if c.N < 1 || c.N > 3 {
 		inf.rejected = true
 		if mr.Code < 400 || mr.Code >= 500 {
 			return hx.V("invalid-N-not-rejected", "scte35_%d: MPD -> %v, expected a 4xx", c.N, mr), inf
 		}
-		sr := e.Srv.Get(ls.URL(parts, e.Asset.Path, tl.SegName(vrep, 0), c.Cfg.StartS*1000+600_000))
+		sr := e.Srv.Get(mkURL(c.AnnexI, parts, e.Asset.Path, tl.SegName(vrep, 0), c.Cfg.StartS*1000+600_000))
 		if sr.Code < 400 || sr.Code >= 500 {
 			return hx.V("invalid-N-not-rejected", "scte35_%d: segment -> %v, expected a 4xx", c.N, sr), inf
 		}
@@ -444,7 +457,7 @@ func checkH(c HCase, e *env.Env) (*hx.Violation, hinfo) {
 			inf.spansMinute = true
 		}
 		now := gen.CeilDivU(tl.AvailU(n), ts) + 1
-		r := e.Srv.Get(ls.URL(parts, e.Asset.Path, tl.SegName(vrep, n), now))
+		r := e.Srv.Get(mkURL(c.AnnexI, parts, e.Asset.Path, tl.SegName(vrep, n), now))
 		if r.Code != 200 {
 			return hx.V("segment-status", "%s n=%d -> %v", tl.SegName(vrep, n), n, r), inf
 		}
@@ -494,7 +507,7 @@ func checkH(c HCase, e *env.Env) (*hx.Violation, hinfo) {
 		w := loT / atl.LoopTicks()
 		for k := w * atl.N(); atl.Start(k) < loT+60*ts && k < w*atl.N()+40; k++ {
 			now := gen.CeilDivU(atl.AvailU(k), ts) + 1
-			r := e.Srv.Get(ls.URL(parts, e.Asset.Path, atl.SegName(ar, k), now))
+			r := e.Srv.Get(mkURL(c.AnnexI, parts, e.Asset.Path, atl.SegName(ar, k), now))
 			if r.Code != 200 {
 				return hx.V("segment-status", "audio %s -> %v", atl.SegName(ar, k), r), inf
 			}
